@@ -224,7 +224,7 @@ func init() {
 		o := prog.DefaultOpts()
 		o.ForceCOE = 2
 		o.ParMatrix = true
-		g := genPart(c, "C07", c.pick(60, 1500), c.pick(40, 1200), o, 1, "fault,panic,one", c.pick(8, 14), false,
+		g := genPart(c, "C07", c.pick(100, 1500), c.pick(40, 1200), o, 1, "fault,panic,one", c.pick(8, 14), false,
 			"fail-fast directive in which some user function actually failed (error or panic): returned error identity, untouched Results sentinels, nothing downstream invoked")
 		both(c, s, g)
 	}
